@@ -70,6 +70,12 @@ run-time primitives are in `Base/PyList.lean`, which the `imports` of the genera
   mutates in place): the function becomes `F.rec : Nat -> params -> F.S -> Py.M F.S` (fuel exhausted = `.fuel`),
   the call runs `F.rec fuel args {}`, takes the returned value (every path must end in `return e`) and copies the
   callee's final list back into the caller's argument local for every `inout` parameter;
+  `self_call_params` (optional) names the parameters the holes stand for, in order - the remaining parameters (the
+  context the profile adds: an environment, `self.<attribute>`) are passed on unchanged.  A self-recursive call may
+  also occur *inside an expression* (`return F(a)`, `g(F(a), F(b))`): it is the monadic term
+  `F.rec fuel args {} >>= fun r => Py.deref r.ret`, its arguments are evaluated left to right and may raise (no `inout`
+  parameters then).  A self-recursive function may contain `for` / `while` loops as long as no recursive call
+  occurs inside a loop body (the loops are auxiliary definitions that come before `F.rec`);
 * `a ** b` (natural exponent), `max(a, b)` / `min(a, b)` (integers: `max` / `min`; floats: `X.pymax` / `X.pymin`),
   list literals `[a, b]`, `[e] * n` (`List.replicate`), a list comprehension with one generator and a pure element
   (`List.map`), a conditional expression whose branches are `Nat` and `Int` (coerced to `Int`), f-strings whose
@@ -532,6 +538,9 @@ class Fn:
         ext = self.try_external(node)
         if ext is not None:
             return ext
+        binds = {}
+        if self.selfcall is not None and match_pattern(self.selfcall, node, binds):
+            return self.self_call_expr([binds[k] for k in sorted(binds)])
         try:
             return self.lit(self.const_of(node))
         except KeyError:
@@ -1184,7 +1193,11 @@ class Fn:
             if arr is not None:
                 wb = f"{{ σ with {arr} := σ.{arr} ++ [σ.{s.target.id}] }}"
             kloop = f"{ln} rest" if wb is None else f"(fun σ => {ln} rest {wb})"
-            body = self.cs(s.body, kloop, kloop, "Except.ok")
+            self.loop_depth = getattr(self, "loop_depth", 0) + 1
+            try:
+                body = self.cs(s.body, kloop, kloop, "Except.ok")
+            finally:
+                self.loop_depth -= 1
             self.aux.append(f"def {ln} : List {paren(ety)} → {self.name}.S → {self.mty()}\n  | [], σ => .ok σ\n  | {xv} :: rest, σ =>\n{ind(tgt_assign, 4)}\n{ind(body, 4)}")
             if arr is not None:
                 return f"{ln} σ.{arr} {{ σ with {arr} := [] }} >>= fun σ =>\n{after()}"
@@ -1199,8 +1212,12 @@ class Fn:
             fuel = self.p.get("fuel", {}).get(self.nloop)
             if fuel is None:
                 raise Untranslatable(f"no fuel bound for while loop {self.nloop}")
-            c = self.truthy(self.ce(s.test))
-            body = self.cs(s.body, f"{ln} fuel", f"{ln} fuel", "Except.ok")
+            self.loop_depth = getattr(self, "loop_depth", 0) + 1
+            try:
+                c = self.truthy(self.ce(s.test))
+                body = self.cs(s.body, f"{ln} fuel", f"{ln} fuel", "Except.ok")
+            finally:
+                self.loop_depth -= 1
             if c.pure:
                 step = f"if {c.term} then\n{ind(body)}\nelse .ok σ"
             else:
@@ -1234,16 +1251,13 @@ class Fn:
         lists it mutates in place"""
         if not self.ret_ty or self.locals.get(target) != self.ret_ty:
             raise Untranslatable(f"recursive call: '{target}' must have the return type {self.ret_ty}")
-        fixed = self.p.get("rec_fixed", [])
-        if len(argnodes) != len(self.params) - len(fixed):
-            raise Untranslatable("recursive call: one hole per parameter expected")
+        holes = self.self_call_holes(argnodes)
         args, wb = [], []
-        argnodes = iter(argnodes)
         for pn, pt in self.params:
-            if pn in fixed:
-                args.append(pn)
+            if pn not in holes:
+                args.append(pn)          # a parameter the call does not mention (`rec_fixed` / not in `self_call_params`): passed on unchanged
                 continue
-            node = next(argnodes)
+            node = holes[pn]
             a = self.ce(node)
             if not a.pure or a.ty != pt:
                 raise Untranslatable(f"recursive call: argument for '{pn}' has type {a.ty} (expected a pure {pt})")
@@ -1257,33 +1271,45 @@ class Fn:
         return (f"{self.name}.rec fuel {' '.join(args)} {{}} >>= fun r =>\nPy.deref r.ret >>= fun v =>\n"
                 f"let σ := {{ σ with {', '.join(wb)} }}\n{after()}")
 
-    def self_call_expr(self, argnodes):
-        """a recursive call in expression position: the value the function returns for these arguments"""
+    def self_call_holes(self, argnodes):
+        """{parameter name: argument node} of a recursive call: the holes stand for `self_call_params` when given, otherwise
+        for all parameters except the Lean-only ones named by `rec_fixed`"""
         fixed = self.p.get("rec_fixed", [])
-        if not self.ret_ty or self.p.get("inout"):
-            raise Untranslatable("recursive call inside an expression: needs `ret` and no `inout` parameters")
-        if len(argnodes) != len(self.params) - len(fixed):
+        names = [mangle(n) for n in self.p.get("self_call_params", [n for n, _ in self.params if n not in fixed])]
+        if len(argnodes) != len(names) or any(n not in self.ptypes for n in names):
             raise Untranslatable("recursive call: one hole per parameter expected")
-        argnodes = iter(argnodes)
-        names, binds = [], []
+        if getattr(self, "loop_depth", 0):
+            raise Untranslatable("recursive call inside a loop body")
+        return dict(zip(names, argnodes))
+
+    def self_call_expr(self, argnodes):
+        """a recursive call inside an expression: arguments left to right (they may raise), then the call; its value"""
+        if not self.ret_ty:
+            raise Untranslatable("recursive call: no return type `ret` in the profile")
+        if self.p.get("inout"):
+            raise Untranslatable("recursive call inside an expression with in-place parameters")
+        holes = self.self_call_holes(argnodes)
+        old_style = "self_call_params" not in self.p          # binder names of the two profiles that use this (kept stable)
+        args, binds = [], []
         for i, (pn, pt) in enumerate(self.params):
-            if pn in fixed:
-                names.append(pn)
+            if pn not in holes:
+                args.append(pn)
                 continue
-            a = self.ce(next(argnodes))
+            a = self.ce(holes[pn])
             if a.ty in (f"Option {pt}", f"Option {paren(pt)}"):
-                a = self.bind1(a, lambda x: f"(Py.deref {x})", pt, partial=True)
+                a = self.bind1(a, lambda x: f"(Py.deref {x})", pt, partial=True)      # `None.method(...)` is an AttributeError
             if a.ty != pt:
                 raise Untranslatable(f"recursive call: argument for '{pn}' has type {a.ty} (expected {pt})")
             if a.pure:
-                names.append(paren(a.term))
+                args.append(paren(a.term))
             else:
-                names.append(f"c{i}")
-                binds.append((f"c{i}", a))
+                nm = f"c{i}" if old_style else f"r{len(binds)}"
+                binds.append((nm, a.term))
+                args.append(nm)
         self.recursive = True
-        body = f"({self.name}.rec fuel {' '.join(names)} {{}} >>= fun r => Py.deref r.ret)"
-        for nm, a in reversed(binds):
-            body = f"({a.term} >>= fun {nm} => {body})"
+        body = f"({self.name}.rec fuel {' '.join(args)} {{}} >>= fun r => Py.deref r.ret)"
+        for nm, t in reversed(binds):
+            body = f"({t} >>= fun {nm} => {body})"
         return E(body, self.ret_ty, False)
 
     def _let(self, name, e):
@@ -1382,8 +1408,6 @@ class Fn:
             out.append(a + "\n")
         text = "\n".join(out)
         if getattr(self, "recursive", False):
-            if self.nloop:
-                raise Untranslatable("loops in a self-recursive function")
             if not diverts(self.fdef.body) or any(isinstance(n, ast.Return) and n.value is None for n in ast.walk(self.fdef)):
                 raise Untranslatable("a self-recursive function must end every path in `return <value>`")
             if "rec_fuel" not in self.p:
@@ -1393,6 +1417,11 @@ class Fn:
                    f"  | 0, {', '.join('_' for _ in self.params)}, _ => .error .fuel\n"
                    f"  | fuel + 1, {', '.join(n for n, _ in self.params)}, σ =>\n{ind(body, 4)}\n\n")
             main = f"def {self.name}.run {params} (σ : {self.name}.S) : Py.M {self.name}.S :=\n  {self.name}.rec ({self.p['rec_fuel']}) {pnames} σ\n"
+            # the loops (none of which contains a recursive call) take the parameters too
+            for i in range(1, self.nloop + 1):
+                ln = f"{self.name}.loop{i}"
+                rec = re.sub(re.escape(ln) + r"(?!\d)", f"{ln} {pnames}", rec)
+                text = re.sub(r"(?<!def )" + re.escape(ln) + r"(?!\d)", f"{ln} {pnames}", text)
             return text + rec + main
         main = f"def {self.name}.run {params} (σ : {self.name}.S) : {self.mty()} :=\n{ind(body)}\n"
         if params:
@@ -1458,7 +1487,10 @@ def generate(profiles, files):
                 parts.append(text)
                 ext = "\n".join(f"   `{p}`  ↦  `{t}` : {ty}" for p, t, ty in used)
                 parts.append(f"/- externals used by `{prof['name']}`:\n{ext}\n-/\n")
-                status[key] = {"ok": True, "externals": [list(u) for u in used]}
+                prev = status.get(key)
+                status[key] = {"ok": True if prev is None else bool(prev["ok"]), "externals": [list(u) for u in used]}
+                if prev is not None and not prev["ok"]:
+                    status[key]["error"] = prev.get("error")      # the same function translated under two profiles: both must work
             except Untranslatable as ex:
                 status[key] = {"ok": False, "error": f"untranslatable: {ex}"}
                 parts.append(f"-- {prof['name']}: UNTRANSLATABLE: {ex}\n")
